@@ -48,6 +48,16 @@ PROPS = {
         "level_note": "Header bytes are opaque in the model (hash/prev/time/bits are given); linkedness is stated on the blocks' prev/hash fields.",
         "assumptions": ["maxHeaders >= 1 (the constant is 100, generated)"],
     },
+    "C08": {
+        "spec_ops": ["c pausedsame"],
+        "streams": [{"name": "ledger", "quick": 160, "thorough": 1600}, {"name": "sync", "quick": 64, "thorough": 800}],
+        "rule": LEDGER_RULE + " Ingestion rounds with budgets 0-12 pause the anchor's ingestion at every position (inputs / outputs of every transaction); at each pause `pausedsame` compares the labelled answers of every query endpoint for every pool address with the ones taken before the ingestion began (specification column same=1, len=1), and the run continues with further slices; the final state is compared with the model, which is proved schedule-independent.",
+        "explanation": "theorems: pause/resume determinism (ingestBlock b1 paused then continue b2 = ingestBlock (b1+b2)), any slice schedule = the unsliced run incl. traps, two completing schedules give the same state (all fields), every round with budget >= 1 makes progress and the block finishes within blockWork rounds; while paused: get_balance, get_utxos (all filters and page tokens, full response), get_block_headers, fee percentiles, tip height/hash/timestamp/difficulty are those of the state before the ingestion began; no get_successors request is issued while ingesting. utxos_length deviation (F10) stated exactly.",
+        "technique": "Lean 4 theorems (fuel-free run of the ingestion loop, pause invariant PausedView relating the half-ingested set to the previous ledger through the per-block delta) + differential correspondence with slice budgets at every position",
+        "level_text": "Machine-checked for every block, budget schedule and pause position; invisibility for all states satisfying Inv (+ unique txids, distinct header heights).",
+        "level_note": "Known finding F10: get_blockchain_info().utxos_length reads the raw size of the half-ingested set. A State-level bound on the number of rounds over several blocks is not proved (per block it is).",
+        "assumptions": ["instruction budget abstracted to one unit per input/output (the harness sets the performance counter accordingly)"],
+    },
     "C09": {
         "spec_ops": ["c upgrade", "c hb"],
         "streams": [{"name": "sync", "quick": 160, "thorough": 3200}],
@@ -71,7 +81,7 @@ PROPS = {
     },
     "C01": {
         "spec_ops": ["c ledgerat"],
-        "extra_props": ["C01Reach", "InvPush", "InvIngest"],
+        "extra_props": ["C01Reach", "InvPush", "InvIngest", "BlockCodec"],
         "streams": [{"name": "ledger", "quick": 160, "thorough": 1600}, {"name": "sync", "quick": 64, "thorough": 800}],
         "rule": LEDGER_RULE,
         "explanation": "theorems: for every state satisfying the global invariant Inv (established by init, preserved by push of a transaction-valid block and by ingestion+pop: Props/InvPush, Props/InvIngest) "
@@ -96,6 +106,7 @@ PROPS = {
     },
     "C10": {
         "spec_ops": [],
+        "extra_props": ["BlockCodec"],
         "streams": [{"name": "sync", "quick": 160, "thorough": 3200}],
         "rule": SYNC_RULE,
         "explanation": "theorems: insert_block accepts iff parent in tree, not already a child of it, header valid (C11), body valid (C12) and push succeeds; rejected blocks return no state (atomic); in a response the first "
